@@ -338,6 +338,48 @@ func runC19(c *Ctx) {
 			L.Fail("R-C19-CTOR", "NewBloomFilter#dispatch", fmt.Sprintf("the rate/locations dispatch on `params[1] < 1` is not there (rate arm calls: %d, location arm conversions: %d, comparisons: %d)", len(calc), len(conv), len(rate)), fn.Pos())
 			return
 		}
+		// which parameter goes where: entries (the argument of getSize) come from params[0], the number of
+		// locations (the setLocs field) from params[1]; the rate arm passes (params[0], params[1]) in that order
+		first := "idx(p[0],c[0])"
+		calcT := "call[z.calcSizeByWrongPositives](" + first + "," + second + ")"
+		leafTerms := func(v ssa.Value) []string {
+			var out []string
+			if ph, ok := v.(*ssa.Phi); ok {
+				for _, e := range phiLeaves(ph) {
+					out = append(out, tb.T(e).String())
+				}
+			} else {
+				out = append(out, tb.T(v).String())
+			}
+			return out
+		}
+		within := func(got []string, allowed ...string) string {
+			for _, g := range got {
+				ok := g == "c[0]"
+				for _, a := range allowed {
+					ok = ok || g == a
+				}
+				if !ok {
+					return g
+				}
+			}
+			return ""
+		}
+		if gs := callsTo(fn, "z.getSize"); len(gs) == 1 {
+			if w := within(leafTerms(gs[0].Common().Args[0]), "conv[uint64]("+first+")", "ext[0]("+calcT+")"); w != "" {
+				L.Fail("R-C19-CTOR", "NewBloomFilter#dispatch", "the filter is sized from "+w+", not from the number of entries params[0] (a filter re-imported by JSONUnmarshal gets another size and answers Has differently)", gs[0].Pos())
+				return
+			}
+		}
+		eachInstr(fn, func(in ssa.Instruction) {
+			if a, ok := in.(*ssa.Alloc); ok && a.Heap && recvName(a.Type()) == "Bloom" {
+				if lf := litFields(a); len(lf["setLocs"]) == 1 {
+					if w := within(leafTerms(lf["setLocs"][0].Val), "conv[uint64]("+second+")", "ext[1]("+calcT+")"); w != "" {
+						L.Fail("R-C19-CTOR", "NewBloomFilter#dispatch", "the number of hash locations is taken from "+w+", not from params[1]", lf["setLocs"][0].Pos())
+					}
+				}
+			}
+		})
 		b1, _ := reach(entryPos(fn), isAnyInstr(calc), nil, cutSet(rate))
 		b2, _ := reach(entryPos(fn), isAnyInstr(conv), nil, cutSet(count))
 		switch {
